@@ -3,7 +3,10 @@ use std::{collections::HashMap, sync::Arc, time::Duration};
 use emmylua_code_analysis::{EmmyLuaAnalysis, FileId, Profile};
 use log::{debug, info};
 use lsp_types::{Diagnostic, Uri};
+#[cfg(not(emmyluals_emmylua_analyzer_rust_verif))]
 use tokio::sync::{Mutex, RwLock};
+#[cfg(emmyluals_emmylua_analyzer_rust_verif)]
+use crate::verif_lock::{Mutex, RwLock};
 use tokio_util::sync::CancellationToken;
 
 use super::{ClientProxy, ProgressTask, StatusBar};
